@@ -581,7 +581,10 @@ func (gen *Generator) GenerateInclude(args []Sexp) error {
 		case *SexpPair:
 			expr := item
 			for expr != SexpNull {
-				list := expr.(*SexpPair)
+				list, isPair := expr.(*SexpPair)
+				if !isPair {
+					return fmt.Errorf("include: Expected a proper list, found dotted tail of type %T val %v", expr, expr)
+				}
 				if err := sourceItem(list.Head); err != nil {
 					return err
 				}
